@@ -89,7 +89,11 @@ type mxCfg struct {
 	cert           string // ok | other | untrusted
 	skipVerify     bool
 	hostHdr        string // Host entry in the caller's request header ("" = none); oracle-only variant
+	longPass       int    // > 0: the proxy password is this many characters long (cred = userpass); oracle-only variant
+	preTLS         bool   // NetDialContext returns a *tls.Conn of its own, authenticated as other.test; oracle-only variant
 }
+
+func longPassword(n int) string { return strings.Repeat("t0k3n-", n/6+1)[:n] }
 
 func serveBackend(c net.Conn, o *mxObs, cfg mxCfg, done *sync.WaitGroup) {
 	defer done.Done()
@@ -271,6 +275,21 @@ func runMatrixCell(cfg mxCfg) (o *mxObs, conn *websocket.Conn, err error, panick
 	if cfg.ndc {
 		d.NetDialContext = func(ctx context.Context, network, addr string) (net.Conn, error) { return pipeTo("NDC", addr) }
 	}
+	if cfg.preTLS {
+		// the application's dial function does TLS of its own, to a front end known as other.test
+		d.NetDialContext = func(ctx context.Context, network, addr string) (net.Conn, error) {
+			c, err := pipeTo("NDC", addr)
+			if err != nil {
+				return nil, err
+			}
+			tc := tls.Client(c, &tls.Config{RootCAs: thePKI.pool, ServerName: "other.test"})
+			if err := tc.HandshakeContext(ctx); err != nil {
+				c.Close()
+				return nil, err
+			}
+			return tc, nil
+		}
+	}
 	if cfg.ndtls {
 		d.NetDialTLSContext = func(ctx context.Context, network, addr string) (net.Conn, error) {
 			c, err := pipeTo("NDTLS", addr)
@@ -293,6 +312,9 @@ func runMatrixCell(cfg mxCfg) (o *mxObs, conn *websocket.Conn, err error, panick
 			cred = "alice@"
 		case "userpass":
 			cred = "alice:s3cret@"
+			if cfg.longPass > 0 {
+				cred = "alice:" + longPassword(cfg.longPass) + "@"
+			}
 		case "userempty":
 			cred = "alice:@"
 		}
@@ -445,6 +467,9 @@ func runMatrixScenario(seed int64, idx int) *scenario {
 			switch cfg.cred {
 			case "userpass":
 				wantAuth = "Basic " + base64.StdEncoding.EncodeToString([]byte("alice:s3cret"))
+				if cfg.longPass > 0 {
+					wantAuth = "Basic " + base64.StdEncoding.EncodeToString([]byte("alice:"+longPassword(cfg.longPass)))
+				}
 			case "userempty":
 				wantAuth = "Basic " + base64.StdEncoding.EncodeToString([]byte("alice:"))
 			}
@@ -477,6 +502,52 @@ func runMatrixScenario(seed int64, idx int) *scenario {
 		}
 	} else if !okDial {
 		sc.violate("ws dial failed: %v (server side: %v)", err, o.serverErrs)
+	}
+	if (cfg.proxy == "http" || cfg.proxy == "https") && cfg.cred == "userpass" && !cfg.wss {
+		// the same cell with long passwords (API tokens): exactly one CONNECT with the right credentials,
+		// same outcome (oracle only)
+		for _, n := range []int{90, 91, 100, 122, 123, 200} {
+			cfg2 := cfg
+			cfg2.longPass = n
+			o2, c2, err2, p2 := runMatrixCell(cfg2)
+			if p2 != "" {
+				sc.violate("Dial with a %d-character proxy password panicked: %s", n, p2)
+				continue
+			}
+			if ok2 := err2 == nil && c2 != nil; ok2 != okDial {
+				sc.violate("Dial with a %d-character proxy password: ok=%v (%v), with a short one ok=%v", n, ok2, err2, okDial)
+			}
+			want := "Basic " + base64.StdEncoding.EncodeToString([]byte("alice:"+longPassword(n)))
+			o2.mu.Lock()
+			if len(o2.connects) != len(o.connects) {
+				sc.violate("%d-character proxy password: %d CONNECT requests, %d with a short one", n, len(o2.connects), len(o.connects))
+			}
+			for _, c := range o2.connects {
+				if !strings.HasSuffix(c, want) {
+					sc.violate("%d-character proxy password: proxy saw %q, expected Proxy-Authorization %q", n, c, want)
+				}
+			}
+			o2.mu.Unlock()
+		}
+		sc.tag("mx:longpass")
+	}
+	if cfg.wss && cfg.proxy == "" && cfg.ndc {
+		// a dial function that hands back a TLS connection of its own, authenticated under another
+		// name: only NetDialTLSContext is trusted to have done the TLS for the URL's host; the library
+		// still runs its own handshake, verified for backend.test, and this dial cannot succeed (oracle only)
+		cfg2 := cfg
+		cfg2.preTLS = true
+		cfg2.nd, cfg2.ndtls, cfg2.cert, cfg2.skipVerify = false, false, "other", false
+		o2, c2, err2, p2 := runMatrixCell(cfg2)
+		if p2 != "" {
+			sc.violate("Dial over an application-made TLS connection panicked: %s", p2)
+		}
+		o2.mu.Lock()
+		if (err2 == nil && c2 != nil) || o2.upgrades > 0 {
+			sc.violate("the dial function returned a TLS connection authenticated as other.test; wss://backend.test dial ok=%v, %d handshake requests reached the server inside that session", err2 == nil && c2 != nil, o2.upgrades)
+		}
+		o2.mu.Unlock()
+		sc.tag("mx:pretls")
 	}
 	if cfg.wss {
 		// the same cell with a Host entry in the caller's header: the name the certificate is
